@@ -150,6 +150,24 @@ Qed.
 Lemma items_ok_tot (its : list item) k : items_ok its -> 0 <= tot its k < 268435456.
 Proof. intros [_ H]. pose proof (tot_le_total its k). pose proof (tot_nonneg its k). lia. Qed.
 
+(* the end offsets the encoder stores never run backwards: parseJSONB's walk over the JEntry array
+   (offsets_ok) accepts every encoder-written array *)
+Lemma offsets_ok_jentries (its : list item) : forall i t,
+  Forall (fun e : item => ty_ok (fst e)) its -> 0 <= t -> t + total its < 268435456 ->
+  offsets_ok (jentries i t its) t = true.
+Proof.
+  induction its as [|[ty d] r IH]; intros i t HF Ht Hlt; [reflexivity|].
+  inversion HF as [|? ? Hty HF']; subst. cbn [fst] in Hty.
+  rewrite total_cons in Hlt. cbn [snd] in Hlt.
+  pose proof (blen_nonneg d) as Hd. pose proof (total_nonneg r) as Hr.
+  cbn [jentries offsets_ok]. cbv zeta.
+  destruct (i mod JB_OFFSET_STRIDE =? 0).
+  - rewrite je_off_has, je_off_off by (assumption || lia). cbn [Z.eqb negb].
+    destruct (t + blen d <? t) eqn:E; [lia|]. apply IH; [assumption|lia|lia].
+  - rewrite je_len_has, je_len_off by (assumption || lia). cbn [Z.eqb negb].
+    apply IH; [assumption|lia|lia].
+Qed.
+
 Section Entries.
 Variable its : list item.
 Hypothesis Hok : items_ok its.
@@ -172,6 +190,8 @@ Proof.
 Qed.
 Lemma entries_len : length entries = n.
 Proof. apply jentries_length. Qed.
+Lemma entries_offsets_ok : offsets_ok entries 0 = true.
+Proof. destruct Hok as [HF Ht]. apply offsets_ok_jentries; [exact HF|lia|lia]. Qed.
 
 Lemma entry_ty k : (k < n)%nat -> Z.land (nth k entries 0) jeTypeMask = fst (item_at its k).
 Proof.
